@@ -20,6 +20,23 @@ def impl_eval(case):
     codec, hexbm = case['codec'], bool(case['hex'])
     o1, data, ex = iu.obs_dumps(lambda: iso8583.dumps(dict(msg), encoding=codec, iso_config=cfg, hex_bitmap=hexbm))
     why = None
+    if data is not None and len(case['msg']) % 4 == 0:
+        # the SAME dictionary object (and the same configuration object) encoded a second time, and the bytes decoded
+        # twice: a second use of the same arguments gives the same result as the first
+        import copy
+        same = dict(msg)
+        cfg2 = copy.deepcopy(cfg)
+        try:
+            a = iso8583.dumps(same, encoding=codec, iso_config=cfg2, hex_bitmap=hexbm)
+            b = iso8583.dumps(same, encoding=codec, iso_config=cfg2, hex_bitmap=hexbm)
+            l1 = iso8583.loads(a, encoding=codec, iso_config=cfg2, hex_bitmap=hexbm)
+            l2 = iso8583.loads(a, encoding=codec, iso_config=cfg2, hex_bitmap=hexbm)
+            if a != data or b != data:
+                why = 'encoding the same dictionary object twice does not give the same bytes both times'
+            elif l1 != l2:
+                why = 'decoding the same bytes twice (same configuration object) does not give the same dictionary both times'
+        except Exception as ex2:  # noqa
+            why = f'a second use of the same arguments raised {type(ex2).__name__}'
     if case.get('pdsoverflow'):
         # more PDS data than the configured carriers can hold: emitting a message that silently lacks some of it is
         # worse than a malformed prefix — whatever is returned must still carry every sub-element
